@@ -100,6 +100,16 @@ struct Stats {
     relation_checked: usize,
 }
 
+/// cases whose implementation run had to be stopped by the watchdog; after a handful the run is
+/// cut short (the failures found so far are reported) so that a change that makes the interpreter
+/// loop cannot make the check itself run for hours
+pub static SLOW_CASES: std::sync::atomic::AtomicUsize = std::sync::atomic::AtomicUsize::new(0);
+const SLOW_LIMIT: usize = 6;
+
+fn too_slow() -> bool {
+    SLOW_CASES.load(std::sync::atomic::Ordering::SeqCst) >= SLOW_LIMIT
+}
+
 fn hash_str(s: &str) -> u64 {
     let mut h = std::collections::hash_map::DefaultHasher::new();
     s.hash(&mut h);
@@ -108,6 +118,10 @@ fn hash_str(s: &str) -> u64 {
 
 fn eval_case(p: &dyn Prop, d: &mut Driver, req: &str) -> (String, String) {
     let model = d.query(req);
+    if model == "MODEL-TIMEOUT" {
+        // the model did not answer in time: the case is skipped (counted as slow), never a failure
+        return (model, "timeout (model did not answer; case skipped)".to_string());
+    }
     let imp = {
         let m = model.clone();
         let r = req.to_string();
@@ -117,6 +131,9 @@ fn eval_case(p: &dyn Prop, d: &mut Driver, req: &str) -> (String, String) {
 }
 
 fn fails(p: &dyn Prop, req: &str, model: &str, imp: &str) -> (bool, bool) {
+    if model == "MODEL-TIMEOUT" {
+        return (false, false);
+    }
     // (model differs, relation violated)
     let differs = model != imp;
     let rel = p.relation(req, model, imp).map(|ok| !ok).unwrap_or(false);
@@ -126,6 +143,8 @@ fn fails(p: &dyn Prop, req: &str, model: &str, imp: &str) -> (bool, bool) {
 fn shrink_case(p: &dyn Prop, d: &mut Driver, req: &str, want_rel: bool) -> String {
     let mut cur = req.to_string();
     let mut rounds = 0;
+    let mut slow_candidates = 0;
+    let started = std::time::Instant::now();
     'outer: loop {
         rounds += 1;
         if rounds > 200 {
@@ -135,7 +154,16 @@ fn shrink_case(p: &dyn Prop, d: &mut Driver, req: &str, want_rel: bool) -> Strin
             if cand.len() >= cur.len() && cand == cur {
                 continue;
             }
+            if slow_candidates >= 3 || started.elapsed().as_secs() >= 10 {
+                // shrinking can create programs that no longer terminate (e.g. a loop without its
+                // counter increment); each costs a watchdog timeout — give up shrinking, keep `cur`
+                break 'outer;
+            }
             let (m, i) = eval_case(p, d, &cand);
+            if i.contains("timeout") || i.contains("HANG") {
+                slow_candidates += 1;
+                continue;
+            }
             let (differs, rel) = fails(p, &cand, &m, &i);
             let still = if want_rel { rel } else { differs };
             if still && p.known(&cand, &m, &i).is_none() {
@@ -165,6 +193,10 @@ fn process(p: &dyn Prop, d: &mut Driver, case: &Case, st: &mut Stats, sample_eve
     if st.samples.len() < 6 && (st.evaluations % sample_every == 1 || sample_every == 1) {
         st.samples.push(json!({"case": p.describe(&case.req), "request": case.req, "model": model, "impl": imp}));
     }
+    let slow = imp.contains("timeout") || imp.contains("HANG");
+    if slow {
+        SLOW_CASES.fetch_add(1, std::sync::atomic::Ordering::SeqCst);
+    }
     let (differs, rel) = fails(p, &case.req, &model, &imp);
     if p.relation(&case.req, &model, &imp).is_some() {
         st.relation_checked += 1;
@@ -180,7 +212,7 @@ fn process(p: &dyn Prop, d: &mut Driver, case: &Case, st: &mut Stats, sample_eve
     if st.failures.len() >= 20 {
         return;
     }
-    let small = shrink_case(p, d, &case.req, rel);
+    let small = if slow || too_slow() { case.req.clone() } else { shrink_case(p, d, &case.req, rel) };
     let (m2, i2) = eval_case(p, d, &small);
     let (d2, r2) = fails(p, &small, &m2, &i2);
     // a failing case counts as a violation of the property itself when the case is in the
@@ -232,13 +264,16 @@ fn main() {
                         let mine = fixed.len() / workers + 1;
                         let every = (mine / 2).max(1);
                         let mut k = w;
-                        while k < fixed.len() {
+                        while k < fixed.len() && !too_slow() {
                             process(prop, &mut d, &fixed[k], &mut st, every);
                             k += workers;
                         }
                         let n = total / workers + if w < total % workers { 1 } else { 0 };
                         let every = (n / 3).max(1);
                         for _ in 0..n {
+                            if too_slow() {
+                                break;
+                            }
                             let c = prop.generate(&mut rng, tier);
                             process(prop, &mut d, &c, &mut st, every);
                         }
@@ -255,6 +290,7 @@ fn main() {
                 "relation_checked_on_impl": st.relation_checked,
                 "rule": prop.rule(), "histogram": st.tags, "samples": st.samples,
                 "failures": st.failures, "known": known,
+                "cut_short_after_slow_cases": SLOW_CASES.load(std::sync::atomic::Ordering::SeqCst),
                 "wall_s": start.elapsed().as_secs_f64(),
             });
             std::fs::write(&out, serde_json::to_string_pretty(&res).unwrap()).unwrap();
